@@ -527,6 +527,32 @@ pub fn run_c04(r: &mut Report) {
         r.case(c.id, json!({"threshold": c.t, "keys": c.keys.len(), "signatures": c.mb.signatures.len()}),
                if c.expect { "Ok(metadata)" } else { "Err" }, format!("{:?}", res.map(|v| v.map(|_| "Ok").map_err(|e| e.to_string()))), ok);
     }
+    // the same key material under its other identifier (imported from PKCS#8 / from the raw pair: the hash-algorithm list, and so the
+    // id, differs) is ANOTHER key: its signature is not a signature of the authorised flavour and never adds to the count
+    {
+        let pk8 = std::fs::read("/repo/tests/ed25519/ed25519-1.pk8.der").unwrap();
+        let raw: Vec<u8> = pk8[16..48].iter().chain(pk8[pk8.len() - 32..].iter()).cloned().collect();
+        let a_pk8 = PrivateKey::from_pkcs8(&pk8, in_toto::crypto::SignatureScheme::Ed25519).unwrap();
+        let a_raw = PrivateKey::from_ed25519(&raw).unwrap();
+        let flavours = [("pkcs8", &a_pk8), ("raw-pair", &a_raw)];
+        for (i, (fname, authorised)) in flavours.iter().enumerate() {
+            let (oname, other) = flavours[1 - i];
+            let both = sign(&[authorised, other]);
+            let only_other = sign(&[other]);
+            let scen: Vec<(&str, &Metablock, Vec<PublicKey>, u32, bool)> = vec![
+                ("both flavours signed; authorised flavour and an absent key demanded, t=2", &both, vec![authorised.public().clone(), k2.public().clone()], 2, false),
+                ("both flavours signed; authorised flavour and an absent key demanded, t=1", &both, vec![authorised.public().clone(), k2.public().clone()], 1, true),
+                ("only the other flavour signed, t=1", &only_other, vec![authorised.public().clone()], 1, false),
+                ("only the other flavour signed; both flavours authorised, t=2", &only_other, vec![authorised.public().clone(), other.public().clone()], 2, false),
+                ("both flavours signed and authorised, t=2", &both, vec![authorised.public().clone(), other.public().clone()], 2, true),
+            ];
+            for (what, mb, keys, t, expect) in scen {
+                let res = no_panic(|| mb.verify(t, keys.iter()).is_ok());
+                r.case("other-flavour-of-the-key-material-is-another-key", json!({"authorised_flavour": fname, "other_flavour": oname, "scenario": what, "ids_differ": authorised.key_id() != other.key_id()}),
+                       if expect { "Ok" } else { "Err" }, format!("{:?}", res), res == Ok(expect) && authorised.key_id() != other.key_id());
+            }
+        }
+    }
     // every arrangement of repeated signatures: all lists of length 0..=5 over {A, B authorised, C unauthorised}, thresholds 0..=3,
     // both orders of the authorised keys: Ok exactly when the number of DISTINCT authorised signers reaches a threshold >= 1
     {
@@ -548,6 +574,28 @@ pub fn run_c04(r: &mut Report) {
             } }
         } }
         r.case("every-arrangement-of-repeated-signatures", json!({"inputs": n}), "Ok exactly when distinct authorised signers >= threshold >= 1", format!("{:?}", bad), bad.is_empty());
+        // every key authorised; each one's entry absent / valid / stale (a genuine signature of that key over ANOTHER block): an invalid
+        // entry neither counts nor uses anything up - Ok exactly when the VALID entries reach the threshold, in either order
+        {
+            let other_block = signed_link(&link("x", &[], &[("a", 2)]), &[&k1, &k2, &k3]);
+            let stale_of = |k: &PrivateKey| other_block.signatures.iter().find(|s| s.key_id() == k.key_id()).unwrap().clone();
+            let ks = [&k1, &k2, &k3];
+            let mut bad3: Vec<String> = vec![]; let mut n3 = 0;
+            for code in 0..27usize {
+                let st = [code % 3, (code / 3) % 3, code / 9];   // 0 absent, 1 valid, 2 stale
+                let mut entries = vec![];
+                for i in 0..3 { match st[i] { 1 => entries.push(sig_of(ks[i])), 2 => entries.push(stale_of(ks[i])), _ => {} } }
+                let valid = st.iter().filter(|x| **x == 1).count() as u32;
+                for rev in [false, true] { for t in 1u32..=3 {
+                    let mut m = base.clone();
+                    m.signatures = if rev { entries.iter().rev().cloned().collect() } else { entries.clone() };
+                    n3 += 1;
+                    let res = no_panic(|| m.verify(t, pubs(&[&k1, &k2, &k3]).iter()).is_ok());
+                    if res != Ok(valid >= t) && bad3.len() < 6 { bad3.push(format!("entries (0 absent, 1 valid, 2 stale) {:?} reversed {} threshold {}: {:?}, expected {}", st, rev, t, res, valid >= t)); }
+                } }
+            }
+            r.case("valid-and-stale-entries-of-authorised-keys", json!({"inputs": n3}), "Ok exactly when the valid entries reach the threshold", format!("{:?}", bad3), bad3.is_empty());
+        }
         // the same with one key of each type (RSA-PSS and ECDSA authorised, Ed25519 not), re-signing for every occurrence (the
         // randomised schemes give a different valid signature each time)
         let rsa = PrivateKey::from_pkcs8(&std::fs::read("/repo/tests/rsa/rsa-2048.pk8.der").unwrap(), in_toto::crypto::SignatureScheme::RsaSsaPssSha256).unwrap();
@@ -598,28 +646,7 @@ pub fn run_c04(r: &mut Report) {
         }
     }
     ecdsa_signature_lengths(r);
-    // key material x declared scheme: a key is checked under its DECLARED scheme; a signature made under the scheme that fits the
-    // material, re-attributed to a key that declares another scheme, is not a valid signature of that key
-    {
-        use in_toto::crypto::SignatureScheme as S;
-        let mats: Vec<(&str, &str, &str, S)> = vec![("ed25519", "ed25519/ed25519-1.spki.der", "ed25519/ed25519-1.pk8.der", S::Ed25519),
-            ("rsa", "rsa/rsa-2048.spki.der", "rsa/rsa-2048.pk8.der", S::RsaSsaPssSha256), ("rsa/sha512", "rsa/rsa-2048.spki.der", "rsa/rsa-2048.pk8.der", S::RsaSsaPssSha512),
-            ("ecdsa", "ecdsa/ec.spki.der", "ecdsa/ec.pk8.der", S::EcdsaP256Sha256)];
-        for (mname, spki, pk8, real) in &mats {
-            let signer = match std::fs::read(format!("/repo/tests/{}", pk8)).ok().and_then(|d| PrivateKey::from_pkcs8(&d, real.clone()).ok()) { Some(k) => k, None => continue };
-            let genuine = signed_link(&l, &[&signer]);
-            let gsig = serde_json::to_value(&genuine.signatures[0]).unwrap();
-            for declared in [S::Ed25519, S::RsaSsaPssSha256, S::RsaSsaPssSha512, S::EcdsaP256Sha256] {
-                let pk = match std::fs::read(format!("/repo/tests/{}", spki)).ok().and_then(|d| PublicKey::from_spki(&d, declared.clone()).ok()) { Some(k) => k, None => continue };
-                let mut m = genuine.clone();
-                m.signatures = vec![serde_json::from_value(json!({"keyid": serde_json::to_value(pk.key_id()).unwrap(), "sig": gsig["sig"]})).unwrap()];
-                let expect = declared == *real;
-                let res = no_panic(|| m.verify(1, [&pk]));
-                r.case("declared-scheme-decides", json!({"material": mname, "signed_under": format!("{:?}", real), "key_declares": format!("{:?}", declared)}), if expect { "Ok" } else { "Err" },
-                       format!("{:?}", res.as_ref().map(|v| v.as_ref().map(|_| "Ok").map_err(|e| e.to_string()))), matches!(&res, Ok(v) if v.is_ok() == expect));
-            }
-        }
-    }
+    declared_scheme_decides(r);
 }
 
 /// dissent in the SHAPE of a digest: a truncated or empty digest, an extra or a different algorithm are all disagreements
@@ -918,6 +945,33 @@ pub fn ecdsa_signature_lengths(r: &mut Report) {
         }
         let bad: Vec<&usize> = seen.iter().filter(|(_, ok)| !**ok).map(|(l, _)| l).collect();
         r.case("ecdsa-signature-lengths", json!({"signatures_made": tries, "lengths_seen": seen.keys().collect::<Vec<_>>()}), "a valid signature of every length is accepted (as signed and after both JSON layouts)", format!("rejected lengths: {:?}", bad), bad.is_empty() && seen.len() >= 3);
+    }
+}
+
+/// C04 / C09: the same key material declared with a different scheme is a different key
+pub fn declared_scheme_decides(r: &mut Report) {
+    let l = link("x", &[], &[("a", 1)]);
+    // key material x declared scheme: a key is checked under its DECLARED scheme; a signature made under the scheme that fits the
+    // material, re-attributed to a key that declares another scheme, is not a valid signature of that key
+    {
+        use in_toto::crypto::SignatureScheme as S;
+        let mats: Vec<(&str, &str, &str, S)> = vec![("ed25519", "ed25519/ed25519-1.spki.der", "ed25519/ed25519-1.pk8.der", S::Ed25519),
+            ("rsa", "rsa/rsa-2048.spki.der", "rsa/rsa-2048.pk8.der", S::RsaSsaPssSha256), ("rsa/sha512", "rsa/rsa-2048.spki.der", "rsa/rsa-2048.pk8.der", S::RsaSsaPssSha512),
+            ("ecdsa", "ecdsa/ec.spki.der", "ecdsa/ec.pk8.der", S::EcdsaP256Sha256)];
+        for (mname, spki, pk8, real) in &mats {
+            let signer = match std::fs::read(format!("/repo/tests/{}", pk8)).ok().and_then(|d| PrivateKey::from_pkcs8(&d, real.clone()).ok()) { Some(k) => k, None => continue };
+            let genuine = signed_link(&l, &[&signer]);
+            let gsig = serde_json::to_value(&genuine.signatures[0]).unwrap();
+            for declared in [S::Ed25519, S::RsaSsaPssSha256, S::RsaSsaPssSha512, S::EcdsaP256Sha256] {
+                let pk = match std::fs::read(format!("/repo/tests/{}", spki)).ok().and_then(|d| PublicKey::from_spki(&d, declared.clone()).ok()) { Some(k) => k, None => continue };
+                let mut m = genuine.clone();
+                m.signatures = vec![serde_json::from_value(json!({"keyid": serde_json::to_value(pk.key_id()).unwrap(), "sig": gsig["sig"]})).unwrap()];
+                let expect = declared == *real;
+                let res = no_panic(|| m.verify(1, [&pk]));
+                r.case("declared-scheme-decides", json!({"material": mname, "signed_under": format!("{:?}", real), "key_declares": format!("{:?}", declared)}), if expect { "Ok" } else { "Err" },
+                       format!("{:?}", res.as_ref().map(|v| v.as_ref().map(|_| "Ok").map_err(|e| e.to_string()))), matches!(&res, Ok(v) if v.is_ok() == expect));
+            }
+        }
     }
 }
 
